@@ -140,3 +140,40 @@ package ctrlflow
 //@     invariant @comparison-k-compares-the-selector-for-equality: _i >= 1 ==> dyntypeis(entriesBlocks[_i-1].Instrs[0], *ssa.BinOp) && entriesBlocks[_i-1].Instrs[0].(*ssa.BinOp).X == phiInstr && entriesBlocks[_i-1].Instrs[0].(*ssa.BinOp).Op == token.EQL && entriesBlocks[_i-1].Instrs[0].(*ssa.BinOp).Y == info[_i-1].CompareVar && dyntypeis(entriesBlocks[_i-1].Instrs[1], *ssa.If) && entriesBlocks[_i-1].Instrs[1].(*ssa.If).Cond == entriesBlocks[_i-1].Instrs[0]
 //@     invariant @dispatcher-entry-jumps-to-the-first-comparison: _i == 1 ==> len(entryBlock.Succs) == 1 && entryBlock.Succs[0] == entriesBlocks[0]
 //@ end
+
+// ---- C11: xor hardening of the dispatcher keys ----
+// Every comparison constant becomes the literal k ^ globalKey and every stored constant the
+// expression (localKey ^ k), where localKey is initialised from the global that the emitted init code
+// computes as firstKey ^ secondKey[0] ^ ... — the same fold the generator runs here. k is fresh, non-zero,
+// pairwise distinct and different from globalKey, so the stored value is never 0 (0 is reserved for
+// the real entry block) and two edges never share a value.
+
+//@ ghost iden map[ref]int
+
+//@ hookset xorhard
+//@ hook after mvdan.cc/garble/internal/asthelper.IntLit(v) (r)
+//@   iden[r] = v
+//@ hook before mvdan.cc/garble/internal/asthelper.DataToArray(d)
+//@   assert("decoder-is-given-the-second-key-the-generator-folded", ref(d) == ref(secondKey) && len(d) == len(secondKey))
+//@ hook before mvdan.cc/garble/internal/ctrlflow.generateKeys(count, bl, r)
+//@   assert("one-key-per-dispatcher-edge-and-the-global-key-is-excluded", count == len(dispatcher) && len(bl) == 1 && bl[0] == globalKey)
+//@ end
+
+//@ func getRandomName
+//@   property C11
+//@   trusted draws a name from the seeded generator
+//@   assigns nothing
+//@ end
+
+//@ func (xorHardening).Apply
+//@   property C11
+//@   intmode bv
+//@   hooks xorhard
+//@   skip safety call-requires
+//@   requires forall k int :: 0 <= k && k < len(dispatcher) ==> dispatcher[k].CompareVar != nil && dispatcher[k].StoreVar != nil && dispatcher[k].CompareVar != dispatcher[k].StoreVar
+//@   ensures @decoder-starts-from-the-first-key-and-folds-the-second-key-with-xor: r0 != nil && dyntypeis(r0, *ast.GenDecl) && r0.(*ast.GenDecl).Tok == token.VAR && r0.(*ast.GenDecl).Specs[0].(*ast.ValueSpec).Names[0].Name == globalKeyName && dyntypeis(r0.(*ast.GenDecl).Specs[0].(*ast.ValueSpec).Values[0], *ast.CallExpr) && dyntypeis(r0.(*ast.GenDecl).Specs[0].(*ast.ValueSpec).Values[0].(*ast.CallExpr).Fun, *ast.FuncLit) && len(r0.(*ast.GenDecl).Specs[0].(*ast.ValueSpec).Values[0].(*ast.CallExpr).Fun.(*ast.FuncLit).Body.List) == 3 && iden[r0.(*ast.GenDecl).Specs[0].(*ast.ValueSpec).Values[0].(*ast.CallExpr).Fun.(*ast.FuncLit).Body.List[0].(*ast.AssignStmt).Rhs[0]] == firstKey && dyntypeis(r0.(*ast.GenDecl).Specs[0].(*ast.ValueSpec).Values[0].(*ast.CallExpr).Fun.(*ast.FuncLit).Body.List[1], *ast.RangeStmt) && r0.(*ast.GenDecl).Specs[0].(*ast.ValueSpec).Values[0].(*ast.CallExpr).Fun.(*ast.FuncLit).Body.List[1].(*ast.RangeStmt).X.(*ast.Ident).Name == "secondKey" && r0.(*ast.GenDecl).Specs[0].(*ast.ValueSpec).Values[0].(*ast.CallExpr).Fun.(*ast.FuncLit).Body.List[1].(*ast.RangeStmt).Body.List[0].(*ast.AssignStmt).Tok == token.XOR_ASSIGN
+//@   ensures @local-key-is-initialised-from-the-decoded-global: r1 != nil && dyntypeis(r1, *ast.AssignStmt) && r1.(*ast.AssignStmt).Tok == token.DEFINE && r1.(*ast.AssignStmt).Lhs[0].(*ast.Ident).Name == localKeyName && r1.(*ast.AssignStmt).Rhs[0].(*ast.Ident).Name == globalKeyName
+//@   loop 1
+//@     invariant @comparison-constant-is-the-key-xor-the-global-key: _i >= 1 ==> iden[ssaRemap[dispatcher[_i-1].CompareVar]] == newKeys[_i-1] ^ globalKey
+//@     invariant @stored-value-is-local-key-xor-the-key: _i >= 1 ==> dyntypeis(ssaRemap[dispatcher[_i-1].StoreVar], *ast.ParenExpr) && dyntypeis(ssaRemap[dispatcher[_i-1].StoreVar].(*ast.ParenExpr).X, *ast.BinaryExpr) && ssaRemap[dispatcher[_i-1].StoreVar].(*ast.ParenExpr).X.(*ast.BinaryExpr).Op == token.XOR && ssaRemap[dispatcher[_i-1].StoreVar].(*ast.ParenExpr).X.(*ast.BinaryExpr).X.(*ast.Ident).Name == localKeyName && iden[ssaRemap[dispatcher[_i-1].StoreVar].(*ast.ParenExpr).X.(*ast.BinaryExpr).Y] == newKeys[_i-1]
+//@ end
